@@ -539,7 +539,7 @@ have pn0 : p != 0 by rewrite -size_poly_eq0 szp.
 have [Hv HS] := horner2_value_error SR z sz.
 have [He e0] := deps4n_lower SR n.
 have Haz := near_ge (sr_cmod SR z).
-have [HE [E0 ap0]] := @Eterm_lower _ A um ua uh ur epsv SR n cs ms z (cmod A z) (deps4n A n) 2 sz Hms Haz He e0.
+have [HE [E0 ap0]] := @Eterm_lower A um ua uh ur epsv SR n cs ms z (cmod A z) (deps4n A n) 2 sz Hms Haz He e0.
 set E := rmuld A _ (deps4n A n) in HE E0 *.
 have m0 := cmod_pos SR dn0.
 have a0 := cmod_ge0 SR (ph_of A z cs).
@@ -560,7 +560,7 @@ have core rad' : (1 - ur) ^+ 3 * (n%:R * (cmod A (ph_of A z cs) + E) / cmod A (d
   move=> Hrad.
   have r0' : 0 <= rad'.
     apply: le_trans Hrad; rewrite mulr_ge0 ?exprn_ge0 // mulr_ge0 ?invr_ge0 ?(ltW m0) // mulr_ge0 ?ler0n // addr_ge0 //.
-  apply: (@core_sound _ A um ua uh ur epsv SR p z (ph_of A z cs) (dh_of A z cs) (Sabs cs z) E _ (rho4 ur) (e_d uh ur epsv n) (gam um ua n) eta) => //.
+  apply: (@core_sound A um ua uh ur epsv SR p z (ph_of A z cs) (dh_of A z cs) (Sabs cs z) E _ (rho4 ur) (e_d uh ur epsv n) (gam um ua n) eta) => //.
   - exact: (gam_ge0 SR).
   - by rewrite exprn_ge0.
   rewrite szp /=.
